@@ -23,6 +23,7 @@ func init() {
 			"R4": "paired updates: Seat ← GetSeatID(same id) after assignment; RemoveSeats(ids) with the ids that filtered the player list",
 			"R5": "capacity guards dominate buy-in and creation",
 			"R6": "who-may-call seat-manager assign/remove; who-may-write PlayerStates/SeatMap/GamePlayerIndexes headers",
+			"R8": "seat-manager look-ups path by path: each scan of the seats selects exactly the seat with the given id / the empty / occupied / eligible seats and yields that seat's own key; unknown id → (unset, not-found); RemoveSeats and JoinPlayers reject exactly unknown ids, collect exactly the seats found, and apply their update to every collected seat",
 			"R7": "IsIn=true and SeatManager.JoinPlayers([same id]) on the same paths of the same function",
 		},
 		Assumptions: []string{"table creation builds fresh state that the manager discards on error (frozen exception)"},
@@ -505,6 +506,8 @@ func checkC03Pairing(c *Ctx, et interface{}) {
 	}
 	// R4 leave filter definition: a player stays iff his id is not among the leave ids
 	checkLeaveFilter(c)
+	checkAssignValidation(c)
+	checkSeatLookups(c, "R8")
 
 	// R4 remove path
 	for _, f := range removers {
